@@ -3,6 +3,30 @@ import BridgeVerif.Translated.PbnParserLemmasB
 namespace Bridge.Translated
 open Bridge Bridge.Py Bridge.Generated.PyCore Bridge.RegexPbn
 
+theorem pp_inn_flag (x : Bool) : (x != (CmpOp.inn == CmpOp.notIn)) = x := by cases x <;> rfl
+
+theorem pp_join_snoc (r : Rec) (l : List Str) (a : Str) :
+    builtinF r P .join [.str [], .tuple (l.map Val.str ++ [.str a])] = .ok (.str (l ++ [a]).flatten) := by
+  have := pp_join r (l ++ [a])
+  simpa only [List.map_append, List.map_cons, List.map_nil] using this
+
+theorem pp_tuple_nil (r : Rec) : builtinF r P .tuple [] = .ok (.tuple []) := rfl
+
+/-- the first five statements, outside a comment, on a non-empty string -/
+theorem pp_ec_prefix (g : Nat) (buf : List Str) (cl cb : List Str) (s : Str) (t : Val) (hne : s.isEmpty = false)
+    (hsv : ∀ r : Rec, builtinF r P .reSearchSpan
+        [.str TAG_PATTERN, .str s, .bool false, .cls n__MatchS, .int n_texts, .int n_span]
+      = .ok (searchVal t (searchTag (s.length + 1) s 0))) :
+    execF (mkRec P (g + 19)) P
+        [(K.self, .obj n_PbnParser [(n__in_comment, .bool false), (n_tag_pair_buffer, .tuple (buf.reverse.map Val.str)),
+          (n_comment_list, .tuple (cl.map Val.str)), (n_comment_buffer, .tuple (cb.map Val.str))]), (n_string, .str s)] ecPre
+      = .ok ([(K.self, .obj n_PbnParser [(n__in_comment, .bool false), (n_tag_pair_buffer, .tuple (buf.reverse.map Val.str)),
+          (n_comment_list, .tuple (cl.map Val.str)), (n_comment_buffer, .tuple (cb.map Val.str))]), (n_string, .str s),
+          (n_x, .int (optIdx (find2 ';' ' ' s 0))), (n_y, .int (optIdx (find2 '{' ' ' s 0))),
+          (n_tag_pair, searchVal t (searchTag (s.length + 1) s 0))], .next) := by
+  simp only [ecPre, m_PbnParser_extract_content, List.take_succ_cons, List.take_zero]
+  ppsimp [pp_truthy_str, hne, pp_find_builtin, pp_mth_tag, pp_tag_call, hsv]
+
 /-- `extract_content` at an arbitrary fuel: four levels per character of the string (every recursive call is made on a
 shorter string, four levels further down) -/
 theorem pp_extract_call (hf : PbnRegexFacts) (n : Nat) : ∀ (f k : Nat) (st : PbnSt) (cl cb : List Str) (s : Str),
@@ -29,6 +53,7 @@ theorem pp_extract_call (hf : PbnRegexFacts) (n : Nat) : ∀ (f k : Nat) (st : P
     | cons c0 s0 =>
     generalize hs : c0 :: s0 = s at *
     have hne : s.isEmpty = false := by rw [← hs]; rfl
+    have hpos : 0 < s.length := by rw [← hs]; simp
     simp only [hne, Bool.false_eq_true, if_false]
     cases ic with
     | true =>
@@ -38,9 +63,77 @@ theorem pp_extract_call (hf : PbnRegexFacts) (n : Nat) : ∀ (f k : Nat) (st : P
         refine ⟨cl, cb ++ [s], ?_⟩
         rw [callF_def]
         simp only [m_PbnParser_extract_content, bindParams, Option.map, encPbnParser]
-        ppsimp [pp_truthy_str, hne, pp_in1, hsp]
-        sorry
-      | some ab => sorry
-    | false => sorry
+        ppsimp [pp_truthy_str, hne, pp_infix1, pp_inn_flag, hsp, List.map_append, List.map_cons, List.map_nil]
+      | some ab =>
+        obtain ⟨a, rem⟩ := ab
+        have hsp' := pp_splitAtChar_spec '}' s a rem hsp
+        have hrem : rem.length < s.length := by rw [← hsp'.2.1, List.length_drop]; omega
+        obtain ⟨cl', cb', ih⟩ := ih f k ⟨false, buf⟩ (cl ++ [(cb ++ [a]).flatten]) [] rem (by omega) (by omega)
+        refine ⟨cl', cb', ?_⟩
+        simp only [encPbnParser, List.map_append, List.map_cons, List.map_nil] at ih
+        rw [callF_def]
+        simp only [m_PbnParser_extract_content, bindParams, Option.map, encPbnParser]
+        ppsimp [pp_truthy_str, hne, pp_infix1, pp_inn_flag, hsp, Option.isSome_some, pp_splitOnce1 _ s '}' a rem hsp, pp_join_snoc,
+          pp_mth_extract, ih, pp_tuple_nil]
+    | false =>
+      simp only [Bool.false_eq_true, if_false]
+      obtain ⟨t, hsv⟩ := pp_search_builtin hf s
+      have hpre := pp_ec_prefix (f + 4 * n) buf cl cb s t hne hsv
+      rw [pp_callF_extract, exec_succ]
+      simp only [encPbnParser]
+      rw [pp_execF_append_next _ _ _ _ _ hpre]
+      by_cases h1 : (0 < optIdx (find2 ';' ' ' s 0) ∧ optIdx (find2 ';' ' ' s 0) < optIdx (find2 '{' ' ' s 0))
+          ∨ (optIdx (find2 '{' ' ' s 0) < 0 ∧ 0 < optIdx (find2 ';' ' ' s 0))
+      · simp only [h1, if_true]
+        have hx0 : 0 < optIdx (find2 ';' ' ' s 0) := by omega
+        have hfx := pp_optIdx_pos _ hx0
+        cases hst : searchTag (s.length + 1) s 0 with
+        | none =>
+          refine ⟨cl ++ [s.drop ((optIdx (find2 ';' ' ' s 0)).toNat + 2)], cb, ?_⟩
+          simp only [searchVal, ecRest, m_PbnParser_extract_content, List.drop_succ_cons, List.drop_zero, PbnSt.push]
+          ppsimp [↓ pp_cond1, h1, pp_truthy_none, pp_splitOnce2 _ s ';' ' ' _ hfx,
+            List.map_append, List.map_cons, List.map_nil, List.reverse_cons]
+        | some ab =>
+          obtain ⟨a, b⟩ := ab
+          by_cases h3 : (a : Int) < optIdx (find2 ';' ' ' s 0) ∧ optIdx (find2 ';' ' ' s 0) < (b : Int)
+          · simp only [h3, and_self, if_true]
+            have hrem : (s.drop b).length < s.length := by rw [List.length_drop]; omega
+            obtain ⟨cl', cb', ih⟩ := ih f k ⟨false, s.take b :: buf⟩ cl cb (s.drop b) (by omega) (by omega)
+            refine ⟨cl' ++ [s.drop ((optIdx (find2 ';' ' ' s 0)).toNat + 2)], cb', ?_⟩
+            simp only [encPbnParser, List.map_append, List.map_cons, List.map_nil, List.reverse_cons] at ih
+            simp only [searchVal, ecRest, m_PbnParser_extract_content, List.drop_succ_cons, List.drop_zero, PbnSt.push]
+            ppsimp [↓ pp_cond1, h1, pp_truthy_obj, pp_mth_ms_start, pp_ms_start_call, pp_mth_ms_end, pp_ms_end_call,
+              h3.1, h3.2, pp_slice_to, pp_slice_from, pp_mth_extract, ih, pp_splitOnce2 _ s ';' ' ' _ hfx,
+              List.map_append, List.map_cons, List.map_nil, List.reverse_cons]
+          · simp only [h3, if_false]
+            refine ⟨cl ++ [s.drop ((optIdx (find2 ';' ' ' s 0)).toNat + 2)], cb, ?_⟩
+            simp only [searchVal, ecRest, m_PbnParser_extract_content, List.drop_succ_cons, List.drop_zero, PbnSt.push]
+            by_cases h4 : (a : Int) < optIdx (find2 ';' ' ' s 0)
+            · have h5 : ¬ optIdx (find2 ';' ' ' s 0) < (b : Int) := fun hh => h3 ⟨h4, hh⟩
+              ppsimp [↓ pp_cond1, h1, pp_truthy_obj, pp_mth_ms_start, pp_ms_start_call, pp_mth_ms_end, pp_ms_end_call,
+                h4, h5, pp_splitOnce2 _ s ';' ' ' _ hfx,
+                List.map_append, List.map_cons, List.map_nil, List.reverse_cons]
+            · ppsimp [↓ pp_cond1, h1, pp_truthy_obj, pp_mth_ms_start, pp_ms_start_call, pp_mth_ms_end, pp_ms_end_call,
+                h4, pp_splitOnce2 _ s ';' ' ' _ hfx,
+                List.map_append, List.map_cons, List.map_nil, List.reverse_cons]
+      · simp only [h1, if_false]
+        by_cases h2 : (optIdx (find2 ';' ' ' s 0) > optIdx (find2 '{' ' ' s 0) ∧ optIdx (find2 '{' ' ' s 0) > 0)
+          ∨ (optIdx (find2 '{' ' ' s 0) > 0 ∧ 0 > optIdx (find2 ';' ' ' s 0))
+        · simp only [h2, if_true]
+          have hy0 : 0 < optIdx (find2 '{' ' ' s 0) := by omega
+          have hfy := pp_optIdx_pos _ hy0
+          have hrem : (s.drop ((optIdx (find2 '{' ' ' s 0)).toNat + 2)).length < s.length := by
+            rw [List.length_drop]; omega
+          obtain ⟨cl', cb', ih⟩ := ih f k ⟨true, s.take (optIdx (find2 '{' ' ' s 0)).toNat :: buf⟩ cl cb
+            (s.drop ((optIdx (find2 '{' ' ' s 0)).toNat + 2)) (by omega) (by omega)
+          refine ⟨cl', cb', ?_⟩
+          simp only [encPbnParser, List.map_append, List.map_cons, List.map_nil, List.reverse_cons] at ih
+          simp only [ecRest, m_PbnParser_extract_content, List.drop_succ_cons, List.drop_zero, PbnSt.push]
+          ppsimp [↓ pp_cond1, ↓ pp_cond2, h1, h2, pp_splitOnce2 _ s '{' ' ' _ hfy, pp_mth_extract, ih,
+            List.map_append, List.map_cons, List.map_nil, List.reverse_cons]
+        · simp only [h2, if_false]
+          refine ⟨cl, cb, ?_⟩
+          simp only [ecRest, m_PbnParser_extract_content, List.drop_succ_cons, List.drop_zero, PbnSt.push]
+          ppsimp [↓ pp_cond1, ↓ pp_cond2, h1, h2, List.map_append, List.map_cons, List.map_nil, List.reverse_cons]
 
 end Bridge.Translated
